@@ -1,4 +1,5 @@
 import TypedpyModel.Props.C04
+import TypedpyModel.Props.C04Subclass
 #print axioms Typedpy.C04.immutable_step_frozen
 #print axioms Typedpy.C04.immutable_step_state
 #print axioms Typedpy.C04.immutable_run_frozen
@@ -15,3 +16,7 @@ import TypedpyModel.Props.C04
 #print axioms Typedpy.C04.immField_stepR_frozen
 #print axioms Typedpy.C04.immField_runR_frozen
 #print axioms Typedpy.C04.tables_all_guarded
+#print axioms Typedpy.C04.sealed_structure_not_subclassable
+#print axioms Typedpy.C04.sealed_ancestor_not_subclassable
+#print axioms Typedpy.C04.immutable_field_not_subclassable
+#print axioms Typedpy.C04.subclass_example
